@@ -245,9 +245,8 @@ class Periodogram(FourierSpectrum):
         psd = speriodogram(self.data, window=self.window, sampling=self.sampling,
                              NFFT=self.NFFT, scale_by_freq=self.scale_by_freq,
                              detrend=self.detrend)
+        # speriodogram has already applied the scale_by_freq factor
         self.psd = psd
-        if self.scale_by_freq is True:
-            self.scale()
         return self
 
     def _str_title(self):
